@@ -6,7 +6,7 @@
 
 use std::{error::Error, fmt, str::FromStr};
 
-use onig::{MatchParam, Regex, RegexOptions, SearchOptions, Syntax};
+use onig::{MatchParam, Regex, RegexOptions, SearchOptions, Syntax, SyntaxOperator};
 
 use super::{Matcher, MatcherIO, WalkEntry};
 
@@ -90,22 +90,38 @@ impl RegexMatcher {
         pattern: &str,
         ignore_case: bool,
     ) -> Result<Self, Box<dyn Error>> {
-        let syntax = match regex_type {
+        let base_syntax = match regex_type {
             RegexType::Emacs => Syntax::emacs(),
             RegexType::Grep => Syntax::grep(),
             RegexType::PosixBasic => Syntax::posix_basic(),
             RegexType::PosixExtended => Syntax::posix_extended(),
         };
+        let options = if ignore_case {
+            RegexOptions::REGEX_OPTION_IGNORECASE
+        } else {
+            RegexOptions::REGEX_OPTION_NONE
+        };
+        // The pattern has to be valid in the selected syntax as it is.
+        Regex::with_options(pattern, options, base_syntax)?;
 
-        let regex = Regex::with_options(
-            pattern,
-            if ignore_case {
-                RegexOptions::REGEX_OPTION_IGNORECASE
-            } else {
-                RegexOptions::REGEX_OPTION_NONE
-            },
-            syntax,
-        )?;
+        // -regex has to match the whole path, but the engine settles for the
+        // first alternative that matches at the start (`a\|ab` stops after `a`
+        // and never matches "ab").  Make the end of the path part of the
+        // pattern instead: a non-capturing group around the user's pattern (so
+        // back-references keep their numbers) followed by GNU's end-of-buffer
+        // anchor.
+        let mut syntax = *base_syntax;
+        syntax.enable_operators(
+            SyntaxOperator::SYNTAX_OPERATOR_QMARK_GROUP_EFFECT
+                | SyntaxOperator::SYNTAX_OPERATOR_ESC_GNU_BUF_ANCHOR,
+        );
+        let anchored = match regex_type {
+            RegexType::PosixExtended => format!("(?:{pattern})\\'"),
+            RegexType::Emacs | RegexType::Grep | RegexType::PosixBasic => {
+                format!("\\(?:{pattern}\\)\\'")
+            }
+        };
+        let regex = Regex::with_options(&anchored, options, &syntax)?;
         Ok(Self { regex })
     }
 }
